@@ -95,6 +95,10 @@ class Run(object):
         self.observing = False   # harness is looking: clock reads are not seam crossings
         self.pre_step = None     # harness hook: called by the _Step wrapper before each _Step
 
+    def __reduce__(self):
+        # the simulator is not part of the system: a pickle only ever refers to "the current run"
+        return (current, ())
+
     # every interaction of the system with its environment passes here
     def seam(self, kind):
         self.counts[kind] += 1
@@ -137,6 +141,12 @@ class Run(object):
 
 def current():
     return CUR
+
+def _current_signal():
+    return CUR.signal if CUR is not None else None
+
+def _current_fs():
+    return CUR.fs if CUR is not None else None
 
 def begin(run):
     global CUR
@@ -385,6 +395,8 @@ class SimSignal(object):
         self.asked = 0
         self.delivered = 0
         self.answers = []        # what was actually consumed
+    def __reduce__(self):
+        return (_current_signal, ())
     def signal(self, signum, handler):
         import mystic._signal as ms
         if handler is ms.default_int_handler:
